@@ -239,8 +239,8 @@ func c15BytesOne(c *Ctx, in []byte, api string) {
 	c.S.Validated++
 	var m map[string]interface{}
 	var err error
-	encodeAfter := "" // "map" | "seq"
-	expect := ""      // "", "ok", "bad", "noroot"
+	encodeAfter := ""               // "map" | "seq"
+	expect := ""                    // "", "ok", "bad", "noroot"
 	var want map[string]interface{} // with "ok": the Map expected, when the reference defines one
 	st, pan := protect(func() {
 		switch api {
@@ -438,6 +438,8 @@ func c15Args(c *Ctx, m map[string]interface{}, api string, args []string) {
 			x2jw.MapValue(m, a(0), nil, true)
 			x2jw.MapValue(m, a(0), map[string]interface{}{"x": "1"}, true)
 			x2jw.MapValue(m, a(0), map[string]interface{}{"x": 1.0}, true)
+			x2jw.MapValue(m, a(0), map[string]interface{}{"": "1"})            // attribute names are keys too: the empty one,
+			x2jw.MapValue(m, a(0), map[string]interface{}{"-": "1", "k": "v"}) // the bare prefix, a name without prefix
 		}
 	})
 	if pan {
